@@ -135,8 +135,10 @@ def main():
                                       "status": "EXECUTABLE", "matched": 0, "remaining": 400})
                 if rows_:
                     steps.append(["stream", rows_])
-            elif r < 0.85:
+            elif r < 0.82:
                 steps.append(["book", rng.choice(mids), rng.choice(["OPEN", "CLOSED", "SUSPENDED"])])
+            elif r < 0.9:
+                steps.append(["poll"])
             else:
                 steps.append(["advance", rng.choice([1, 60, 1800])])
         cases.append({"strategies": 2, "steps": steps})
@@ -161,6 +163,10 @@ def main():
                 if names[:len(prev_names.get(mid, []))] != prev_names.get(mid, []):
                     ldirect.append((i, "the blotter lost or reordered orders (step %d)" % si))
                 prev_names[mid] = names
+            if isinstance(ob["res"], list) and ob["res"] and ob["res"][0] == "polled":
+                want = sorted(o[0] for mid, v in ob["blotters"].items() if not v.get("closed") for o in v["orders"])
+                if "closed" in next(iter(ob["blotters"].values()), {}) and ob["res"][1] != want:
+                    ldirect.append((i, "a poll of the paper-trading order stream returned %s, the open markets hold %s (step %d)" % (ob["res"][1], want, si)))
             if isinstance(ob["res"], str) and ob["res"].startswith("EXC"):
                 ldirect.append((i, "handler raised %s at step %d" % (ob["res"], si)))
     lbad = []
@@ -172,7 +178,7 @@ def main():
     for i in lpf[:3]:
         why = [w for j, w in ldirect if j == i][:2] or ["a view differs from the orders placed/adopted with that key"]
         ck.fail("C15-views", why[0], {"case": cases[i], "how": "harness/impl/livelib.py run_live_orders on a real Flumine"})
-    return ck.finish("all blotter views (by strategy, strategy+selection, client, client+strategy, trade, bet id, live list) and lookups dumped at every strategy call of simulation runs (2-3 strategies, 1-2 clients, 1-2 markets, replacements) and after every step of live scripts (placements, acknowledgements, order-stream snapshots completing/adopting orders incl. unknown strategies, closures followed by late stream updates); compared in Coq with the model applied to the blotter's own order list; shadow list over time (nothing lost, reordered or duplicated; live list)")
+    return ck.finish("all blotter views (by strategy, strategy+selection, client, client+strategy, trade, bet id, live list) and lookups dumped at every strategy call of simulation runs (2-3 strategies, 1-2 clients, 1-2 markets, replacements) and after every step of live scripts (placements, acknowledgements, order-stream snapshots completing/adopting orders incl. unknown strategies, polls of the paper-trading order stream, closures followed by late stream updates); compared in Coq with the model applied to the blotter's own order list; shadow list over time (nothing lost, reordered or duplicated; live list)")
 
 
 def replay(path):
